@@ -8,6 +8,7 @@ from .. import refmodel as R
 from .. import shapes as S
 
 PROPERTY = "C10"
+VIA_HISTORY_EVERY = 5      # every k-th shape case is also run on an object that reached its definition through edits
 EXPLORERS = ['E1']
 RULE = ("E1: targets (single curves/surfaces/volumes, rational or not, 2-D and 3-D, clamped and unclamped, and "
         "Curve/Surface/VolumeContainers of 1..3 different elements, start points away from the origin) x translation "
@@ -378,6 +379,11 @@ def _one(ctx, name, tg, chain, inplace, pre, T, rc, f, defs0, plists, pts0, grid
     obj, elems = _build_target(tg, seed)
     if pre:
         _read_evalpts(obj, elems, cont)
+        if cont:
+            # an unfinished earlier iteration over the container must not influence the next one
+            for _e in obj:
+                break
+            next(iter(obj))
     snaps = [S.snapshot(e) for e in elems]
     cur = obj
     ok_id = True
